@@ -169,6 +169,16 @@ func genC15(r *Rng, tier string) []Case {
 			dec(d, stream, dg[:len(dg)-1], 16384, pick(), "plain")
 			dec(1-d, stream, dg, 16384, pick(), "plain")
 		}
+		// two decoders alive at the same time (hidden shared state would show here)
+		for i := 0; i < 40; i++ {
+			rs := []int{1, 7, 16, 64}[r.Intn(4)]
+			pa := bytes.Repeat([]byte{'A'}, 1+r.Intn(3*rs+40))
+			pb := bytes.Repeat([]byte{'B'}, 1+r.Intn(3*rs+40))
+			sa, da := miEncodeRef(d, rs, pa)
+			sb, db := miEncodeRef(d, rs, pb)
+			k := 1 + r.Intn(rs+3)
+			cs = append(cs, Case{"mi_interleave", []Sx{draftSym(d), B(sa), B([]byte(da)), B(sb), B([]byte(db)), Zi(int64(k))}})
+		}
 		// arbitrary streams against arbitrary digests
 		n := 300
 		if tier == "thorough" {
